@@ -1029,4 +1029,439 @@ theorem pass_spec (xs t : List Obj) (hnd : (t.map Obj.loc).Nodup)
     rw [List.find?_eq_none] at hm
     simpa using hm
 
+
+/-! ### the repeated passes reach the resolved locations -/
+
+/-- a resolution step, or the location itself when nothing is above it -/
+def stepOrId (xs : List Obj) (p : Str) : Str := (stepLoc xs p).getD p
+
+theorem resolveDir_settled (n : Nat) (xs : List Obj) (p : Str) (h : stepLoc xs p = none) : resolveDir n xs p = p := by
+  cases n <;> simp [resolveDir, h]
+
+theorem resolveDir_add (a b : Nat) (xs : List Obj) (p : Str) :
+    resolveDir (a + b) xs p = resolveDir b xs (resolveDir a xs p) := by
+  induction a generalizing p with
+  | zero => simp [resolveDir]
+  | succ a ih =>
+    rw [show a + 1 + b = (a + b) + 1 by omega]
+    simp only [resolveDir]
+    cases hs : stepLoc xs p with
+    | none => simp only; rw [resolveDir_settled b xs p hs]
+    | some p' => simp only; exact ih p'
+
+theorem resolveDir_one (xs : List Obj) (p : Str) : resolveDir 1 xs p = stepOrId xs p := by
+  simp only [resolveDir, stepOrId]
+  cases stepLoc xs p <;> rfl
+
+theorem resolveDir_succ (k : Nat) (xs : List Obj) (p : Str) :
+    resolveDir (k + 1) xs p = stepOrId xs (resolveDir k xs p) := by
+  rw [resolveDir_add, resolveDir_one]
+
+theorem stepLoc_eq_mover (xs : List Obj) (e : Obj) :
+    stepLoc xs e.loc = (mover xs e).map fun s => moveLoc s.loc (symTarget s) e.loc := rfl
+
+theorem stepObj_eq (xs : List Obj) (e : Obj) : stepObj xs e = withLoc e (stepOrId xs e.loc) := by
+  unfold stepObj stepOrId
+  rw [stepLoc_eq_mover]
+  cases mover xs e with
+  | none => simp [withLoc_self]
+  | some x => simp [mvBy]
+
+theorem relocatePasses_succ (m : Nat) (xs t : List Obj) :
+    relocatePasses (m + 1) xs t = if (relocate xs t []).2.isEmpty then (relocate xs t []).1
+      else relocatePasses m xs (setUpdate (relocate xs t []).1 (relocate xs t []).2) := by
+  cases h : relocate xs t [] with
+  | mk a b => simp [relocatePasses, h]
+
+/-- **the passes**: when `n` resolution steps settle every entry and send different entries to different places,
+`n + 1` passes (or fewer, when a pass moves nothing) leave every entry at its resolved place -/
+theorem passes_spec (xs t0 : List Obj) (n : Nat)
+    (hinj : ∀ e1 ∈ t0, ∀ e2 ∈ t0, resolveDir n xs e1.loc = resolveDir n xs e2.loc → e1 = e2)
+    (hdepth : ∀ e ∈ t0, stepLoc xs (resolveDir n xs e.loc) = none) :
+    ∀ m k t, k + m = n + 1 → (t.map Obj.loc).Nodup →
+      (∀ o, o ∈ t ↔ ∃ e ∈ t0, o = withLoc e (resolveDir k xs e.loc)) →
+      ((relocatePasses m xs t).map Obj.loc).Nodup ∧
+        ∀ o, o ∈ relocatePasses m xs t ↔ ∃ e ∈ t0, o = withLoc e (resolveDir n xs e.loc) := by
+  have hlast : ∀ e ∈ t0, resolveDir (n + 1) xs e.loc = resolveDir n xs e.loc := fun e he => by
+    rw [resolveDir_add, resolveDir_settled 1 xs _ (hdepth e he)]
+  intro m
+  induction m with
+  | zero =>
+    intro k t hk hnd hmem
+    have hk' : k = n + 1 := by omega
+    subst hk'
+    refine ⟨hnd, fun o => ?_⟩
+    simp only [relocatePasses]
+    rw [hmem o]
+    constructor
+    · rintro ⟨e, he, rfl⟩; exact ⟨e, he, by rw [hlast e he]⟩
+    · rintro ⟨e, he, rfl⟩; exact ⟨e, he, by rw [hlast e he]⟩
+  | succ m ih =>
+    intro k t hk hnd hmem
+    -- a step on a member of `t` is the next resolution step of the entry it comes from
+    have hstep : ∀ e, stepObj xs (withLoc e (resolveDir k xs e.loc)) = withLoc e (resolveDir (k + 1) xs e.loc) := by
+      intro e
+      rw [stepObj_eq, withLoc_loc, withLoc_withLoc, resolveDir_succ]
+    have hup : ∀ e ∈ t0, ∀ e' ∈ t0, resolveDir (k + 1) xs e.loc = resolveDir (k + 1) xs e'.loc → e = e' := by
+      intro e he e' he' heq
+      apply hinj e he e' he'
+      rw [← hlast e he, ← hlast e' he', show n + 1 = (k + 1) + m by omega, resolveDir_add (k + 1) m xs e.loc,
+        resolveDir_add (k + 1) m xs e'.loc, heq]
+    have hpass := pass_spec xs t hnd (by
+      intro o1 h1 o2 h2 hl
+      obtain ⟨e1, he1, rfl⟩ := (hmem o1).mp h1
+      obtain ⟨e2, he2, rfl⟩ := (hmem o2).mp h2
+      rw [hstep, hstep, withLoc_loc, withLoc_loc] at hl
+      rw [hup e1 he1 e2 he2 hl])
+    rw [relocatePasses_succ]
+    by_cases hemp : (relocate xs t []).2.isEmpty = true
+    · rw [if_pos hemp]
+      have hnil : (relocate xs t []).2 = [] := by simpa using hemp
+      rw [hpass.2.2 hnil]
+      have hnone := hpass.2.1.mp hnil
+      refine ⟨hnd, fun o => ?_⟩
+      have hsettled : ∀ e ∈ t0, resolveDir n xs e.loc = resolveDir k xs e.loc := by
+        intro e he
+        have hm := hnone _ ((hmem _).mpr ⟨e, he, rfl⟩)
+        have hs : stepLoc xs (resolveDir k xs e.loc) = none := by
+          have := stepLoc_eq_mover xs (withLoc e (resolveDir k xs e.loc))
+          rw [withLoc_loc, hm] at this
+          exact this
+        rw [show n = k + (n - k) by omega, resolveDir_add, resolveDir_settled _ xs _ hs]
+      rw [hmem o]
+      constructor
+      · rintro ⟨e, he, rfl⟩; exact ⟨e, he, by rw [hsettled e he]⟩
+      · rintro ⟨e, he, rfl⟩; exact ⟨e, he, by rw [hsettled e he]⟩
+    · rw [if_neg hemp]
+      apply ih (k + 1) _ (by omega) hpass.1.1
+      intro o
+      rw [hpass.1.2 o]
+      constructor
+      · rintro ⟨o', ho', rfl⟩
+        obtain ⟨e, he, rfl⟩ := (hmem o').mp ho'
+        exact ⟨e, he, hstep e⟩
+      · rintro ⟨e, he, rfl⟩
+        exact ⟨_, (hmem _).mpr ⟨e, he, rfl⟩, (hstep e).symm⟩
+
+
+/-! ### at most one symlink of a flat archive is above a location -/
+
+/-- the location of a symlinked directory is normalised: `child_nodes` tests the location followed by a slash -/
+def LocNorm (l : Str) : Prop := cnPrefix l = l ++ ['/']
+
+theorem slash_prefix_cases (u v p : Str) (hu : (u ++ ['/']) <+: p) (hv : (v ++ ['/']) <+: p) (hl : u.length ≤ v.length) :
+    u = v ∨ (u ++ ['/']) <+: v := by
+  have h1 : (u ++ ['/']) <+: (v ++ ['/']) := List.prefix_of_prefix_length_le hu hv (by simp; exact hl)
+  by_cases he : u.length = v.length
+  · left
+    have := h1.eq_of_length (by simp [he])
+    exact List.append_cancel_right this
+  · right
+    exact List.prefix_of_prefix_length_le h1 (List.prefix_append v ['/']) (by simp; omega)
+
+theorem ancestor_sym_unique (F : List Obj) (hn : ∀ s ∈ F, LocNorm s.loc)
+    (hflat : ∀ a ∈ F, ∀ b ∈ F, isChild a.loc b.loc = false) (hlocs : ∀ a ∈ F, ∀ b ∈ F, a.loc = b.loc → a = b)
+    (p : Str) (a b : Obj) (ha : a ∈ F) (hb : b ∈ F) (hpa : isChild a.loc p = true) (hpb : isChild b.loc p = true) : a = b := by
+  have ea := hn a ha
+  have eb := hn b hb
+  unfold LocNorm at ea eb
+  unfold isChild at hpa hpb
+  rw [ea] at hpa
+  rw [eb] at hpb
+  rw [List.isPrefixOf_iff_prefix] at hpa hpb
+  rcases Nat.le_total a.loc.length b.loc.length with hl | hl
+  · rcases slash_prefix_cases _ _ p hpa hpb hl with h | h
+    · exact hlocs a ha b hb h
+    · have := hflat a ha b hb
+      unfold isChild at this
+      rw [ea] at this
+      rw [← List.isPrefixOf_iff_prefix] at h
+      rw [h] at this; cases this
+  · rcases slash_prefix_cases _ _ p hpb hpa hl with h | h
+    · exact (hlocs b hb a ha h).symm
+    · have := hflat b hb a ha
+      unfold isChild at this
+      rw [eb] at this
+      rw [← List.isPrefixOf_iff_prefix] at h
+      rw [h] at this; cases this
+
+theorem find?_perm_unique {α : Type} (p : α → Bool) (l1 l2 : List α) (hp : l1.Perm l2)
+    (hu : ∀ a ∈ l1, ∀ b ∈ l1, p a = true → p b = true → a = b) : l1.find? p = l2.find? p := by
+  cases h1 : l1.find? p with
+  | none =>
+    rw [List.find?_eq_none] at h1
+    symm
+    rw [List.find?_eq_none]
+    exact fun x hx => h1 x (hp.mem_iff.mpr hx)
+  | some a =>
+    have ha := List.mem_of_find?_eq_some h1
+    have hpa := List.find?_some h1
+    cases h2 : l2.find? p with
+    | none =>
+      rw [List.find?_eq_none] at h2
+      exact absurd hpa (h2 a (hp.mem_iff.mp ha))
+    | some b =>
+      have hb := hp.mem_iff.mpr (List.mem_of_find?_eq_some h2)
+      rw [hu a ha b hb hpa (List.find?_some h2)]
+
+theorem resolveDir_congr (n : Nat) (a b : List Obj) (h : ∀ p, stepLoc a p = stepLoc b p) (p : Str) :
+    resolveDir n a p = resolveDir n b p := by
+  induction n generalizing p with
+  | zero => rfl
+  | succ n ih =>
+    simp only [resolveDir, h p]
+    cases stepLoc b p with
+    | none => rfl
+    | some p' => exact ih p'
+
+/-! ### `dirname` -/
+
+theorem joinWith_dropLast (sep : Char) : ∀ (comps : List Str), 2 ≤ comps.length →
+    ∃ last, joinWith sep comps = joinWith sep comps.dropLast ++ sep :: last
+  | [], h => by simp at h
+  | [_], h => by simp at h
+  | [a, b], _ => ⟨b, by simp [joinWith, List.dropLast]⟩
+  | a :: b :: c :: rest, _ => by
+    obtain ⟨last, hl⟩ := joinWith_dropLast sep (b :: c :: rest) (by simp)
+    refine ⟨last, ?_⟩
+    have hd : (a :: b :: c :: rest).dropLast = a :: b :: (c :: rest).dropLast := by simp [List.dropLast]
+    have hd' : (b :: c :: rest).dropLast = b :: (c :: rest).dropLast := by simp [List.dropLast]
+    have e1 : joinWith sep (a :: b :: c :: rest) = a ++ sep :: joinWith sep (b :: c :: rest) := rfl
+    have e2 : joinWith sep (a :: b :: (c :: rest).dropLast) = a ++ sep :: joinWith sep (b :: (c :: rest).dropLast) := rfl
+    rw [hd, e1, e2, hl, hd']
+    simp
+
+theorem rstrip_prefix (s : Str) : ((s.reverse.dropWhile (· = '/')).reverse) <+: s := by
+  have hsuf : (s.reverse.dropWhile (· = '/')) <:+ s.reverse := List.dropWhile_suffix _
+  have := List.reverse_prefix.mpr hsuf
+  simpa using this
+
+/-- `dirname p` is an initial piece of `p` -/
+theorem dirName_prefix (p : Str) : dirName p <+: p := by
+  unfold dirName
+  simp only
+  split
+  · exact List.nil_prefix
+  · rename_i hlen
+    obtain ⟨last, hl⟩ := joinWith_dropLast '/' (splitOn '/' p) (by omega)
+    rw [joinWith_splitOn] at hl
+    have hhead : joinWith '/' (splitOn '/' p).dropLast <+: p := ⟨'/' :: last, hl.symm⟩
+    split
+    · split
+      · rename_i hemp
+        have : joinWith '/' (splitOn '/' p).dropLast = [] := by simpa using hemp
+        rw [this] at hl
+        exact ⟨last, hl.symm⟩
+      · exact hhead
+    · exact (rstrip_prefix _).trans hhead
+
+/-- `dirname` shortens every path but the root and the empty path -/
+theorem dirName_length (p : Str) (h1 : p ≠ []) (h2 : p ≠ ['/']) : (dirName p).length < p.length := by
+  unfold dirName
+  simp only
+  split
+  · cases p with
+    | nil => exact absurd rfl h1
+    | cons c cs => simp
+  · rename_i hlen
+    obtain ⟨last, hl⟩ := joinWith_dropLast '/' (splitOn '/' p) (by omega)
+    rw [joinWith_splitOn] at hl
+    have hlen' : p.length = (joinWith '/' (splitOn '/' p).dropLast).length + 1 + last.length := by
+      conv => lhs; rw [hl]
+      simp; omega
+    split
+    · split
+      · rename_i hemp
+        have he : joinWith '/' (splitOn '/' p).dropLast = [] := by simpa using hemp
+        rw [he] at hl hlen'
+        cases last with
+        | nil => exact absurd hl h2
+        | cons c cs => simp at hlen' ⊢; omega
+      · omega
+    · have := (rstrip_prefix (joinWith '/' (splitOn '/' p).dropLast)).length_le
+      omega
+
+
+/-! ### `add_missing_directories` -/
+
+theorem dirNameN_add (a b : Nat) (p : Str) : dirNameN a (dirNameN b p) = dirNameN (a + b) p := by
+  induction a with
+  | zero => simp [dirNameN]
+  | succ a ih => rw [show a + 1 + b = (a + b) + 1 by omega]; simp only [dirNameN, ih]
+
+theorem dirName_root : dirName ['/'] = ['/'] := by decide
+theorem dirName_nil : dirName [] = [] := by decide
+
+theorem dirNameN_root (k : Nat) : dirNameN k ['/'] = ['/'] := by
+  induction k with
+  | zero => rfl
+  | succ k ih => simp only [dirNameN, ih, dirName_root]
+
+theorem dirNameN_nil (k : Nat) : dirNameN k [] = [] := by
+  induction k with
+  | zero => rfl
+  | succ k ih => simp only [dirNameN, ih, dirName_nil]
+
+/-- a proper ancestor that is neither the root nor empty is reached in fewer steps than the path has characters -/
+theorem dirNameN_length (k : Nat) (q : Str) (h1 : dirNameN k q ≠ []) (h2 : dirNameN k q ≠ ['/']) :
+    (dirNameN k q).length + k ≤ q.length := by
+  induction k with
+  | zero => simp [dirNameN]
+  | succ k ih =>
+    simp only [dirNameN] at h1 h2 ⊢
+    have r1 : dirNameN k q ≠ [] := fun e => h1 (by rw [e]; exact dirName_nil)
+    have r2 : dirNameN k q ≠ ['/'] := fun e => h2 (by rw [e]; exact dirName_root)
+    have := dirName_length _ r1 r2
+    have := ih r1 r2
+    omega
+
+theorem mem_ancestors (p q : Str) : p ∈ ancestors q ↔ ∃ j, j < q.length ∧ p = dirNameN (j + 1) q := by
+  unfold ancestors
+  rw [List.mem_map]
+  constructor
+  · rintro ⟨j, hj, rfl⟩; exact ⟨j, List.mem_range.mp hj, rfl⟩
+  · rintro ⟨j, hj, rfl⟩; exact ⟨j, List.mem_range.mpr hj, rfl⟩
+
+theorem le_maxLocLen (t : List Obj) (e : Obj) (h : e ∈ t) : e.loc.length ≤ maxLocLen t := by
+  induction t with
+  | nil => simp at h
+  | cons x r ih =>
+    simp only [maxLocLen, List.foldr_cons]
+    rcases List.mem_cons.mp h with h | h
+    · rw [h]; exact Nat.le_max_left _ _
+    · exact Nat.le_trans (ih h) (Nat.le_max_right _ _)
+
+theorem nodup_eraseDups : ∀ (l : List Str), l.eraseDups.Nodup
+  | [] => by simp
+  | a :: as => by
+    rw [List.eraseDups_cons]
+    refine List.nodup_cons.mpr ⟨?_, nodup_eraseDups (as.filter fun b => !(b == a))⟩
+    intro h
+    have := List.mem_eraseDups.mp h
+    simp at this
+termination_by l => l.length
+decreasing_by
+  simp only [List.length_cons]
+  exact Nat.lt_succ_of_le (List.length_filter_le _ _)
+
+/-- the missing parents of one round -/
+def roundMissing (t : List Obj) : List Str :=
+  ((t.map fun x => dirName x.loc).filter fun p => !(t.any (·.loc == p)) && p != ['/'] && !p.isEmpty).eraseDups
+
+theorem missingDirs_succ (fuel : Nat) (t : List Obj) :
+    missingDirs (fuel + 1) t = if (roundMissing t).isEmpty then []
+      else roundMissing t ++ missingDirs fuel (t ++ (roundMissing t).map newDir) := rfl
+
+theorem mem_roundMissing (t : List Obj) (p : Str) :
+    p ∈ roundMissing t ↔ (∃ e ∈ t, p = dirName e.loc) ∧ p ∉ t.map Obj.loc ∧ p ≠ ['/'] ∧ p ≠ [] := by
+  unfold roundMissing
+  rw [List.mem_eraseDups, List.mem_filter, List.mem_map]
+  constructor
+  · rintro ⟨⟨e, he, rfl⟩, hc⟩
+    simp only [Bool.and_eq_true, Bool.not_eq_true', bne_iff_ne, ne_eq] at hc
+    refine ⟨⟨e, he, rfl⟩, ?_, hc.1.2, fun e0 => by rw [e0] at hc; exact absurd hc.2 (by simp)⟩
+    intro hm
+    obtain ⟨x, hx, hl⟩ := List.mem_map.mp hm
+    have : t.any (·.loc == dirName e.loc) = true := List.any_eq_true.mpr ⟨x, hx, by simp [hl]⟩
+    rw [this] at hc
+    exact absurd hc.1.1 (by simp)
+  · rintro ⟨⟨e, he, rfl⟩, hno, h1, h2⟩
+    refine ⟨⟨e, he, rfl⟩, ?_⟩
+    have : t.any (·.loc == dirName e.loc) = false := by
+      rw [List.any_eq_false]
+      intro x hx hk
+      exact hno (List.mem_map.mpr ⟨x, hx, by simpa using hk⟩)
+    simp [this, h1, h2]
+
+theorem missingDirs_sound (fuel : Nat) (t : List Obj) (p : Str) (h : p ∈ missingDirs fuel t) :
+    p ∉ t.map Obj.loc ∧ p ≠ ['/'] ∧ p ≠ [] ∧ ∃ e ∈ t, ∃ j, p = dirNameN (j + 1) e.loc := by
+  induction fuel generalizing t with
+  | zero => simp [missingDirs] at h
+  | succ fuel ih =>
+    rw [missingDirs_succ] at h
+    split at h
+    · simp at h
+    · rcases List.mem_append.mp h with h | h
+      · obtain ⟨⟨e, he, rfl⟩, hno, h1, h2⟩ := (mem_roundMissing t p).mp h
+        exact ⟨hno, h1, h2, e, he, 0, rfl⟩
+      · obtain ⟨hno, h1, h2, e, he, j, hj⟩ := ih _ h
+        refine ⟨fun hm => hno (by rw [List.map_append]; exact List.mem_append_left _ hm), h1, h2, ?_⟩
+        rcases List.mem_append.mp he with he | he
+        · exact ⟨e, he, j, hj⟩
+        · obtain ⟨q, hq, rfl⟩ := List.mem_map.mp he
+          obtain ⟨⟨e', he', rfl⟩, _⟩ := (mem_roundMissing t q).mp hq
+          refine ⟨e', he', j + 1, ?_⟩
+          rw [hj]
+          show dirNameN (j + 1) (dirNameN 1 e'.loc) = _
+          rw [dirNameN_add]
+
+theorem missingDirs_complete (j : Nat) : ∀ (fuel : Nat) (t : List Obj) (e : Obj), e ∈ t → j + 1 ≤ fuel →
+    dirNameN (j + 1) e.loc ∉ t.map Obj.loc → dirNameN (j + 1) e.loc ≠ ['/'] → dirNameN (j + 1) e.loc ≠ [] →
+    dirNameN (j + 1) e.loc ∈ missingDirs fuel t := by
+  induction j with
+  | zero =>
+    intro fuel t e he hf hno h1 h2
+    obtain ⟨f, rfl⟩ : ∃ f, fuel = f + 1 := ⟨fuel - 1, by omega⟩
+    have hm : dirNameN 1 e.loc ∈ roundMissing t := (mem_roundMissing t _).mpr ⟨⟨e, he, rfl⟩, hno, h1, h2⟩
+    rw [missingDirs_succ]
+    have hne : (roundMissing t).isEmpty = false := by
+      cases hr : roundMissing t with
+      | nil => rw [hr] at hm; cases hm
+      | cons a b => rfl
+    rw [hne]
+    exact List.mem_append_left _ hm
+  | succ j ih =>
+    intro fuel t e he hf hno h1 h2
+    obtain ⟨f, rfl⟩ : ∃ f, fuel = f + 1 := ⟨fuel - 1, by omega⟩
+    have hsplit : dirNameN (j + 1 + 1) e.loc = dirNameN (j + 1) (dirName e.loc) := by
+      show _ = dirNameN (j + 1) (dirNameN 1 e.loc)
+      rw [dirNameN_add]
+    by_cases hq : dirName e.loc ∈ t.map Obj.loc
+    · obtain ⟨e', he', hl⟩ := List.mem_map.mp hq
+      rw [hsplit, ← hl] at hno h1 h2 ⊢
+      exact ih (f + 1) t e' he' (by omega) hno h1 h2
+    · have hq1 : dirName e.loc ≠ ['/'] := fun e1 => h1 (by rw [hsplit, e1]; exact dirNameN_root _)
+      have hq2 : dirName e.loc ≠ [] := fun e2 => h2 (by rw [hsplit, e2]; exact dirNameN_nil _)
+      have hm : dirName e.loc ∈ roundMissing t := (mem_roundMissing t _).mpr ⟨⟨e, he, rfl⟩, hq, hq1, hq2⟩
+      rw [missingDirs_succ]
+      have hne : (roundMissing t).isEmpty = false := by
+        cases hr : roundMissing t with
+        | nil => rw [hr] at hm; cases hm
+        | cons a b => rfl
+      rw [hne]
+      simp only [Bool.false_eq_true, if_false]
+      by_cases hpm : dirNameN (j + 1 + 1) e.loc ∈ roundMissing t
+      · exact List.mem_append_left _ hpm
+      · apply List.mem_append_right
+        have hin : newDir (dirName e.loc) ∈ t ++ (roundMissing t).map newDir :=
+          List.mem_append_right _ (List.mem_map_of_mem hm)
+        have := ih f (t ++ (roundMissing t).map newDir) (newDir (dirName e.loc)) hin (by omega)
+        rw [show (newDir (dirName e.loc)).loc = dirName e.loc from rfl] at this
+        rw [hsplit] at hno h1 h2 hpm ⊢
+        apply this _ h1 h2
+        rw [List.map_append]
+        intro hmem
+        rcases List.mem_append.mp hmem with hmem | hmem
+        · exact hno hmem
+        · rw [List.map_map] at hmem
+          obtain ⟨q, hq', hl⟩ := List.mem_map.mp hmem
+          rw [show (Obj.loc ∘ newDir) q = q from rfl] at hl
+          rw [← hl] at hpm
+          exact hpm hq'
+
+/-- **`add_missing_directories`** with enough rounds adds exactly the proper ancestors that are not in the set
+(the root excepted) -/
+theorem missingDirs_spec (t : List Obj) (p : Str) :
+    p ∈ missingDirs (maxLocLen t + 1) t ↔
+      p ∉ t.map Obj.loc ∧ p ≠ ['/'] ∧ p ≠ [] ∧ ∃ e ∈ t, p ∈ ancestors e.loc := by
+  constructor
+  · intro h
+    obtain ⟨hno, h1, h2, e, he, j, hj⟩ := missingDirs_sound _ t p h
+    refine ⟨hno, h1, h2, e, he, (mem_ancestors p e.loc).mpr ⟨j, ?_, hj⟩⟩
+    have := dirNameN_length (j + 1) e.loc (by rw [← hj]; exact h2) (by rw [← hj]; exact h1)
+    omega
+  · rintro ⟨hno, h1, h2, e, he, ha⟩
+    obtain ⟨j, hj, rfl⟩ := (mem_ancestors p e.loc).mp ha
+    exact missingDirs_complete j _ t e he (by have := le_maxLocLen t e he; omega) hno h1 h2
+
 end Pkgcore.C25
